@@ -625,7 +625,7 @@ def parse_mir(text):
                 fns[name] = body
             continue
         m = re.match(r'^(const|static|static mut) (.*::promoted\[\d+\]): (.*) = (\{)$', line) or \
-            re.match(r'^(const|static|static mut) ([^:]*(?:::[^:]+)*?): (.*) = (.*)$', line)
+            re.match(r'^(const|static|static mut) ([^:]*(?:::[^:]+)*?): (.*?) = (.*)$', line)      # (type up to the FIRST ` = `: the value may be a string holding ` = `)
         if m:
             name = m.group(2)
             ty = m.group(3)
